@@ -296,6 +296,30 @@ class SymE:
                 meta['restricted_to_complement_of_known_finding'] = True
         self.st.prove(label, cond, **meta)
 
+    def prove_forall(self, label, lo, hi, body, use=None, **meta):
+        """obligation  for all k in [lo,hi): body(k), proved pointwise at a fresh index k (manual skolemisation);
+        use(k) may return lemma instances (conditions established by their own units) assumed for this obligation only"""
+        k = SInt(z3.Int(self.st.fresh_name('sk')))
+        extra = [zbool(L.And(lo <= k, k < hi))]
+        if use is not None:
+            for c in use(k):
+                if c is not True:
+                    extra.append(zbool(c))
+        from . import findings as F
+        cond = body(k)
+        finding, region = meta.pop('finding', None), meta.pop('region', None)
+        if finding is not None:
+            meta['finding'] = finding
+            if finding in F.ACTIVE and region is not None:
+                cond = L.Or(region, cond)
+        self.st.prove(label, cond, extra_pc=extra, **meta)
+
+    def use_lemma(self, name, cond):
+        """cond is an instance of the lemma `name`, which is established by its own unit lemma/<name> in the same check"""
+        if name not in self.st.lemmas_used:
+            self.st.lemmas_used.append(name)
+        return cond
+
     def cover(self, label):
         self.st.cover(label)
 
